@@ -212,3 +212,50 @@ Example ex_cache_evicts_newcomer :
   let '(s', o) := run_req cfgBig s (reqS 7000) in
   r_cached o = false /\ lookup 7000 (cache s') = None /\ Z.of_nat (length (cache s')) = cache_cap.
 Proof. vm_compute. repeat split; discriminate. Qed.
+
+(* ---------------------------------------------------------------------- *)
+(* requests that overlap                                                   *)
+
+(* two requests are admitted while CLOSED and are still inside the executor when two failures open the breaker *)
+Definition cs_open_flying : cstate :=
+  fst (crun cfgA (init, []) [Begin 1 (reqS 1) InZ; Begin 2 (reqF 9) InZ; Seq (Run (reqF 2)); Seq (Run (reqX 3))]).
+
+Example ex_overlap_open_with_stragglers :
+  circ (br (fst cs_open_flying)) = Open /\ last_failure (br (fst cs_open_flying)) = Some 3 /\
+  now (fst cs_open_flying) = 3 /\ length (snd cs_open_flying) = 2%nat /\ fl_monotone (snd cs_open_flying) /\
+  fcount (br (fst cs_open_flying)) = 2 /\ zcalls (fst cs_open_flying) = 4.
+Proof. vm_compute. repeat split; repeat constructor; discriminate. Qed.
+
+(* c08_overlap_open_isolates: hypotheses met by a history in which both stragglers are answered inside the
+   timeout - one successfully (the breaker stays OPEN, the count stays), one with a failure (last_failure moves
+   from 3 to 5) - and two requests arrive (both refused, the second one a [Begin]) *)
+Example ex_overlap_isolates :
+  let ops := [Seq (Tick 2); End 1; Seq (Run (reqS 7)); End 2; Begin 3 (reqS 8) InY; Seq (Tick 3)] in
+  let '((s', fl'), rs) := crun cfgA cs_open_flying ops in
+  crequests_only ops /\ cmonotone ops /\ now s' - 3 < timeout cfgA /\
+  map (fun x => (fst x, r_action (snd x))) rs =
+    [(false, ASuccess); (true, ACircuitOpen); (false, AFailure); (true, ACircuitOpen)] /\
+  circ (br s') = Open /\ last_failure (br s') = Some 5 /\ fcount (br s') = 3 /\ trips (br s') = 1 /\
+  zcalls s' = 4 /\ fl' = [] /\ ycalls s' = ycalls (fst cs_open_flying) + 2 /\
+  spent s' = spent (fst cs_open_flying) + 20.
+Proof. vm_compute. repeat split; repeat constructor; discriminate. Qed.
+
+(* c08_open_left_only_by_probe_or_reset: the answer of a straggler is in the first case (still OPEN), a request
+   that arrives after the timeout is in the third (a [Begin]: the breaker is HALF_OPEN while it is in flight, and
+   its success closes the breaker when it is answered) *)
+Example ex_overlap_straggler_vs_probe :
+  circ (br (fst (fst (cstep cfgA cs_open_flying (End 1))))) = Open /\
+  fcount (br (fst (fst (cstep cfgA cs_open_flying (End 1))))) = 2 /\
+  (let '((s1, fl1), r1) := cstep cfgA (s_due, []) (Begin 5 (reqS 9) InZ) in
+   r1 = None /\ circ (br s1) = HalfOpen /\ length fl1 = 1%nat /\
+   let '((s2, fl2), r2) := cstep cfgA (s1, fl1) (End 5) in
+   circ (br s2) = Closed /\ fcount (br s2) = 0 /\ fl2 = []).
+Proof. vm_compute. repeat split; reflexivity. Qed.
+
+(* c08_overlap_open_implies_threshold_reached: the two failures that open the breaker are answers of requests
+   that overlapped *)
+Example ex_overlap_opens_at_threshold :
+  let '((s', fl'), rs) :=
+    crun cfgA (init, []) [Begin 1 (reqF 1) InZ; Begin 2 (reqX 2) InZ; Seq (Run (reqS 3)); End 2; End 1] in
+  circ (br s') = Open /\ count_failures (map snd rs) = 2 /\ fcount (br s') = 2 /\ trips (br s') = 1 /\ fl' = [].
+Proof. vm_compute. auto. Qed.
